@@ -16,3 +16,20 @@ PROPS = {
                      "declared bulk lengths above 512 MiB are rejected by the parser (maxBulk)"],
     ),
 }
+
+PROPS["C02"] = dict(
+    rule="streams of 1..8 canonical values (C01 generator) x partitions of their byte stream: whole, all-1-byte, every 2-way split point "
+         "(exhaustive for streams <=300 bytes quick / <=3000 thorough, 40 sampled beyond), 6 random k-way partitions; "
+         "delivered by a scripted io.Reader that never crosses a segment boundary; non-trivial = every case (>=1 value); distinct = distinct case line",
+    trusted_base=[KERNEL, TIE, "io.Reader contract: >=1 byte unless at end of stream, (0, io.EOF) only at the end (net.TCPConn, tls.Conn, net.Pipe, bytes.Buffer)"],
+    assumptions=["readers returning (0, nil) or (n>0, io.EOF) are outside the modelled transport contract"],
+)
+PROPS["C06"] = dict(
+    rule="hostile streams: hand-picked near-valid frames (whole and byte-by-byte), deep nesting, and structure-aware mutations of valid streams "
+         "(truncate, splice, flip, duplicate, edit length/count digits to boundary integers 2^31-1, 2^31, 2^63-2, 2^63-1, 10^13, -1, -2^63, 512MiB+-1, "
+         "drop/double CR/LF), random bytes; declared sizes >=10^7 run in an isolated child (GOMEMLIMIT, 5 s); "
+         "non-trivial = every case; distinct = distinct case line",
+    trusted_base=[KERNEL, TIE, "Go runtime behaviour of make() for sizes <= 512 MiB + 2", "io.Reader contract as in C02"],
+    assumptions=["stack exhaustion by nesting far beyond 1 MiB of input is outside the model", "memory exhaustion below the 512 MiB bulk limit is outside the model"],
+    timeout=900,
+)
